@@ -105,6 +105,11 @@ func genHashIn(r *simcore.Rand, nib int, near []byte) HB {
 		if r.Bool(0.3) {
 			h[n] = near[n] ^ byte(1<<uint(r.Intn(8)))
 		}
+		if n == 31 && h[31]>>4 == near[31]>>4 {
+			// keccak-keyed accounts never share 63 nibbles: a leaf at depth 64 is what
+			// trie.ResolvePath and rawdb.ResolveAccountTrieNodeKey rule out by design
+			h[31] ^= 0x10 << uint(r.Intn(4))
+		}
 	}
 	h[0] = byte(nib)<<4 | h[0]&0x0f
 	if near == nil {
@@ -114,6 +119,11 @@ func genHashIn(r *simcore.Rand, nib int, near []byte) HB {
 				h[i] = 0
 			}
 			h[0] = byte(nib) << 4
+			if nib == 0 {
+				// the all-zero hash is geth's marker for "account trie" (rawdb.WriteTrieNode):
+				// not a possible account hash
+				h[31] = 1
+			}
 		case 2: // exactly the partition's last hash
 			for i := range h {
 				h[i] = 0xff
@@ -123,6 +133,10 @@ func genHashIn(r *simcore.Rand, nib int, near []byte) HB {
 	}
 	return h
 }
+
+// k63 is the first 63 nibbles of a hash: account hashes of one state must differ
+// in them (see genHashIn).
+func k63(h []byte) string { return string(h[:31]) + string([]byte{h[31] >> 4}) }
 
 func genSlots(r *simcore.Rand, n int) []Slot {
 	var out []Slot
@@ -201,10 +215,11 @@ func Gen11(r *simcore.Rand, tier string) any {
 			near = l[r.Intn(len(l))]
 		}
 		h := genHashIn(r, nib, near)
-		if seen[string(h)] {
+		if seen[string(h)] || seen[k63(h)] {
 			continue
 		}
 		seen[string(h)] = true
+		seen[k63(h)] = true
 		byPart[nib] = append(byPart[nib], h)
 		a := Acct11{Hash: h, Nonce: uint64(r.Intn(5)), Balance: uint64(r.Intn(1000))}
 		if r.Bool(0.3) {
@@ -251,7 +266,15 @@ func Gen11(r *simcore.Rand, tier string) any {
 	}
 	p.WrongRoot = r.Bool(0.12)
 	p.Scale = []int{1, 1, 40, 300, 2000, 40000}[r.Intn(6)]
-	p.Gated = r.Bool(0.85)
+	entries := len(p.Accounts)
+	for _, a := range p.Accounts {
+		entries += len(a.Slots)
+	}
+	if entries > 250 && p.Scale > 300 {
+		// every flush reopens two snapshot iterators (O(state) each on memorydb)
+		p.Scale = 300
+	}
+	p.Gated = r.Bool(0.9)
 	if p.Gated {
 		if r.Bool(0.2) {
 			p.FailWrite = r.Range(1, 12)
@@ -327,13 +350,6 @@ func Shrink11(pl any) []any {
 		out = append(out, q)
 	}
 	if p.Gated {
-		if p.FailWrite == 0 && p.CancelAt == 0 {
-			q := clonePlan(p)
-			q.Gated = false
-			q.Tape = nil
-			q.SleepAt = nil
-			out = append(out, q)
-		}
 		for _, t := range simcore.ShrinkTape(p.Tape) {
 			q := clonePlan(p)
 			q.Tape = t
@@ -500,7 +516,8 @@ func buildRef(p *Plan11) *refState {
 		}
 		ra.flat = types.SlimAccountRLP(mk(flatRoot))
 		ra.corrected = types.SlimAccountRLP(mk(ra.root))
-		full, err := rlp.EncodeToBytes(mk(ra.root))
+		fa := mk(ra.root)
+		full, err := rlp.EncodeToBytes(&fa)
 		if err != nil {
 			simcore.Harnessf("encode account: %v", err)
 		}
